@@ -135,6 +135,9 @@ def main():
 
     rng = ck.rng
     explore = "--explore" in os.sys.argv
+    if ck.replay_arg:
+        replay(ck, ck.replay_arg)
+        return
     driver_ok = not getattr(lean, "driver_broken", False)
     if not driver_ok:
         ck.finish({"evaluations": 0, "distinct_nontrivial": 0, "rule": "-", "explanation": "Lean model does not build against the regenerated tables"})
@@ -322,12 +325,16 @@ def main():
         elif jc != "1":
             # the fresh report agrees with the observed placement, the committed SUPPORTED_OPS.md does not
             committed_doc.append((r, k, docc, obs))
+    seen_keys = collections.Counter()
     for r, k, docc, obs in committed_doc:
         s = r["src"][k]
         parts = docc.split(" ")
         ext = parts[-1][4:]
         key = f"doc-drift:1:{ext}:" if parts[0] == "silent" else (f"doc-drift:4:{ext}:{parts[2]}" if parts[0] == "cpu" else None)
         ck.count("committed_doc_contradicted")
+        seen_keys[key] += 1
+        if seen_keys[key] > 2:
+            continue
         ck.violation(f"{s['type']} in '{r['label']}' ({r['opts'][1]}): the committed SUPPORTED_OPS.md says {' '.join(parts[:3])}, observed placement {obs} "
                      "(the freshly generated report agrees with the observation)",
                      {"label": r["label"], "opts": r["opts"], "seed": ck.seed, "index": r["idx"], "operator": s["type"], "committed_document": docc,
@@ -390,9 +397,66 @@ def main():
                     "compilations that die with a non-Vela exception are C13's subject and are skipped (counted)"])
 
 
+def replay(ck, path):
+    """Re-run one recorded case: a stub operator (family, label) through the real checkers and the Lean model/Spec, or
+    one generated network through the compiler.  Exit 1 when the disagreement is still there."""
+    import json
+    import sys
+
+    import c16_lib
+    import c16_nets
+    import fbwalk
+    import netgen
+
+    rp = json.load(open(path if os.path.isabs(path) or os.path.exists(path) else os.path.join(common.VERIF, path)))
+    seed, body = int(rp.get("seed", 0)), rp["replay"]
+    bad = False
+    if "family" in body:
+        rng = random.Random(seed * 1000003 + sum(map(ord, "C16")))
+        rc = c16_lib.RealCheckers()
+        for fam, label, op in c16_lib.stub_cases(rng, rp.get("tier") == "thorough"):
+            if fam == body["family"] and label == body["label"] and op is not None:
+                d = c16_lib.describe(op)
+                rs, ru = rc.verdict("sem", op), rc.verdict("sup", op)
+                ms, mu, doc = ck.model([f"c16 sem {d}", f"c16 sup {d}", f"c16 doc {d}"], parallel=False)
+                print(f"stub {fam} ({label}):\n  real semantic  {rs}\n  model semantic {ms}\n  real supported  {ru}\n  model supported {mu}\n  report says     {doc}")
+                run = rs if rs != "npu" else ru
+                obs = "npu" if run == "npu" else ("cpu" if run.startswith("cpu") else "raised")
+                j = ck.model([f"c16judge {doc.split(' ')[0]} {obs}"], parallel=False)[0]
+                bad = (j != "1" and obs != "raised") or c16_lib.canon_model(ms) != c16_lib.canon_real(rs) or c16_lib.canon_model(mu) != c16_lib.canon_real(ru)
+                break
+        else:
+            print("case not found")
+    elif "index" in body:
+        nets = c16_nets.cases(random.Random(seed * 7919 + 16), rp.get("tier") == "thorough")
+        label, net = nets[int(body["index"])]
+        r = _compile_job((seed, int(body["index"]), label, netgen.serialize(net), body["opts"]))
+        print(f"network '{label}' {body['opts']}: {r.get('status')} {r.get('exc', '')}")
+        if r.get("status") == "ok" and r.get("out_model") is not None:
+            cpu_ops, n_npu = observed_cpu_ops(fbwalk.parse(r["out_model"]))
+            print(f"  output file: {len(cpu_ops)} CPU operators {cpu_ops}, {n_npu} Ethos-U operators")
+            for s in r.get("src", []):
+                doc, place, docc = ck.model([f"c16 doc {s['desc']}", f"c16 place {s['desc']}", f"c16 docc {s['desc']}"], parallel=False)
+                print(f"  {s['type']} -> {s['out_names']}: report says {doc} | model {place} | committed document says {docc}")
+                from ethosu.vela.operation import Op as VOp
+                from ethosu.vela.tflite_mapping import builtin_operator_inv_map
+                e = builtin_operator_inv_map.get(getattr(VOp, s["type"]))
+                on_cpu = any(e is not None and c == int(e[0]) and set(names) == set(s["out_names"]) for c, names in cpu_ops)
+                obs = "cpu" if on_cpu else "npu"
+                if ck.model([f"c16judge {doc.split(' ')[0]} {obs}"], parallel=False)[0] != "1":
+                    print(f"    observed {obs}: DISAGREES with the report")
+                    bad = True
+            m = re.search(r"CPU operators = (\d+)", r["stdout"])
+            print("  console:", m.group(0) if m else "no summary")
+    else:
+        print(json.dumps(body, indent=1)[:3000])
+    sys.stdout.flush()
+    os._exit(1 if bad else 0)
+
+
 # keys of known_findings.txt for placement differences of the unchanged tree (see design.d/C16.md)
 def classify_placement(ck, placement, explore):
-    known = 0
+    known, reported = 0, 0
     for r, k, doc, run, obs in placement:
         s = r["src"][k]
         key = placement_key(s, doc, run, obs)
@@ -401,8 +465,12 @@ def classify_placement(ck, placement, explore):
               "replay": "harness/c16_nets.cases(Random(seed*7919+16))[index] -> netgen.serialize -> vela"}
         what = (f"{s['type']} in '{r['label']}' ({r['opts'][1]}): the report's constraints say {doc.split(' ')[0]} "
                 f"({' '.join(doc.split(' ')[1:])[:80]}), observed placement {obs}")
-        if not ck.violation(what, rp, found_input=True, key=key):
+        if key is not None and ck.finding_key_known(key) is not None:
+            ck.violation(what, rp, found_input=True, key=key)
             known += 1
+        elif reported < 6:
+            ck.violation(what, rp, found_input=True, key=key)
+            reported += 1
     return known
 
 
